@@ -91,9 +91,12 @@ Record crel (c : cluster) (s : single) : Prop := {
 
 Lemma crel_init chans : crel (Cluster chans ∅ ∅) (Single chans ∅ ∅).
 Proof.
-  constructor; simpl; try reflexivity.
-  - intros n k [x H]. rewrite lookup_empty in H. simpl in H. rewrite lookup_empty in H. discriminate.
-  - intros id. rewrite !lookup_empty. exact I.
+  constructor.
+  - reflexivity.
+  - intros k _. reflexivity.
+  - intros n k [x H]. cbn [cl_store] in H. rewrite lookup_empty in H. cbn [default] in H.
+    rewrite lookup_empty in H. discriminate.
+  - intros id. cbn [cl_writers sg_writers]. rewrite !lookup_empty. exact I.
 Qed.
 
 Lemma buf_append_lookup buf parts n :
